@@ -7,10 +7,18 @@ use core::sync::atomic::{AtomicU64, Ordering};
 /// Number of loop iterations / recursive calls counted since the last reset.
 pub static WORK: AtomicU64 = AtomicU64::new(0);
 
+/// Budget: `tick` panics once the counter exceeds this value (so that a harness that catches
+/// unwinding gets control back from a loop that does not terminate).
+pub static LIMIT: AtomicU64 = AtomicU64::new(u64::MAX);
+
 /// Count one unit of work.
 #[inline]
 pub fn tick() {
-    WORK.fetch_add(1, Ordering::Relaxed);
+    let n = WORK.fetch_add(1, Ordering::Relaxed);
+    if n >= LIMIT.load(Ordering::Relaxed) {
+        WORK.store(0, Ordering::Relaxed);
+        panic!("kurbo_verif: work budget exceeded");
+    }
 }
 
 /// Read and reset the counter.
